@@ -1627,6 +1627,112 @@ pub fn run(ctx: &Ctx) -> i32 {
         }
         beat("");
     }
+    // map and for-each over several lists of unequal length, improper lists and non-lists: all proper => stops with the
+    // shortest; an improper or non-list argument that runs out of pairs before the shortest proper list => an error,
+    // not a silently shorter result; otherwise (unspecified) either
+    {
+        let mut im = Impl::new();
+        // (text, elements, proper)
+        let args: Vec<(&str, Vec<&str>, bool)> = vec![
+            ("'()", vec![], true),
+            ("'(1)", vec!["1"], true),
+            ("'(1 2)", vec!["1", "2"], true),
+            ("'(1 2 3)", vec!["1", "2", "3"], true),
+            ("'(1 . 2)", vec!["1"], false),
+            ("'(1 2 . 3)", vec!["1", "2"], false),
+            ("5", vec![], false),
+            ("\"abc\"", vec![], false),
+            ("(vector 1 2)", vec![], false),
+        ];
+        for a in &args {
+            for b in &args {
+                for third in [false, true] {
+                    let mut lists = vec![a, b];
+                    let c = ("'(7 8 9)", vec!["7", "8", "9"], true);
+                    if third {
+                        lists.push(&c);
+                    }
+                    let stop = lists.iter().filter(|l| l.2).map(|l| l.1.len()).min();
+                    let must_fail = lists.iter().any(|l| !l.2 && stop.map(|s| l.1.len() < s).unwrap_or(true));
+                    let all_proper = lists.iter().all(|l| l.2);
+                    let rows: Vec<String> = (0..stop.unwrap_or(0)).map(|i| format!("({})", lists.iter().map(|l| l.1.get(i).copied().unwrap_or("?")).collect::<Vec<_>>().join(" "))).collect();
+                    let operands = lists.iter().map(|l| l.0).collect::<Vec<_>>().join(" ");
+                    let params = ["x", "y", "z"][..lists.len()].join(" ");
+                    for (which, text, want) in [
+                        ("map", format!("(map list {})", operands), format!("({})", rows.join(" "))),
+                        (
+                            "for-each",
+                            format!("(let ((seen '())) (for-each (lambda ({p}) (set! seen (cons (list {p}) seen))) {o}) (reverse seen))", p = params, o = operands),
+                            format!("({})", rows.join(" ")),
+                        ),
+                    ] {
+                        acc.evals += 1;
+                        beat(&text);
+                        let o = im.eval_text(&text);
+                        let got = o.show();
+                        let is_err = matches!(o, ImplOut::Error(_, _));
+                        let ok = if must_fail { is_err } else if all_proper { got == want } else { is_err || got == want };
+                        if ok {
+                            acc.nontrivial += 1;
+                        } else {
+                            acc.violation(Violation {
+                                key: format!("several-lists:{}", text),
+                                class: Some(format!("{}-over-several-lists", which)),
+                                observed: if got.starts_with("panic") { "panic".into() } else if is_err { "error-for-valid-call".into() } else if must_fail { "value-for-improper-list".into() } else { "wrong-result".into() },
+                                detail: json!({"session": [text], "expected": if must_fail { "an error".to_string() } else if all_proper { want.clone() } else { format!("{} or an error", want) }, "observed": got}),
+                            });
+                            if got.starts_with("panic") {
+                                im = Impl::new();
+                            }
+                        }
+                    }
+                }
+            }
+        }
+        beat("");
+    }
+    // vector-copy! within one long vector, source and destination overlapping in either direction: lengths, shifts and
+    // counts around 64 (an implementation may stage the copy through a buffer); against copy_within on a Rust vector
+    {
+        let mut im = Impl::new();
+        for n in [70usize, 130, 200] {
+            for shift in [1usize, 2, 63, 64, 65] {
+                for up in [true, false] {
+                    for count in [1usize, 63, 64, 65, n - shift] {
+                        if shift + count > n {
+                            continue;
+                        }
+                        let (at, start) = if up { (shift, 0) } else { (0, shift) };
+                        let end = start + count;
+                        let text = format!(
+                            "(let ((v (let lp ((i {}) (a '())) (if (= i 0) (list->vector a) (lp (- i 1) (cons (- i 1) a)))))) (vector-copy! v {} v {} {}) v)",
+                            n, at, start, end
+                        );
+                        acc.evals += 1;
+                        beat(&text);
+                        let mut model: Vec<usize> = (0..n).collect();
+                        model.copy_within(start..end, at);
+                        let want = format!("#({})", model.iter().map(|x| x.to_string()).collect::<Vec<_>>().join(" "));
+                        let got = im.eval_text(&text).show();
+                        if got == want {
+                            acc.nontrivial += 1;
+                        } else {
+                            acc.violation(Violation {
+                                key: format!("overlapping-copy:n={}:at={}:start={}:end={}", n, at, start, end),
+                                class: Some("vector-copy!-overlapping-long".into()),
+                                observed: if got.starts_with("panic") { "panic".into() } else if got.starts_with("error") { "error".into() } else { "wrong-contents".into() },
+                                detail: json!({"session": [text], "expected": want, "observed": got}),
+                            });
+                            if got.starts_with("panic") {
+                                im = Impl::new();
+                            }
+                        }
+                    }
+                }
+            }
+        }
+        beat("");
+    }
     // stored values are the very values given: every ordered pair (OLD, NEW) of scalars that include numerically equal
     // numbers of different exactness and both signed zeros, each produced as a literal or as the car of a fresh list,
     // through every storing or copying procedure; observed in written form (number comparison would hide 2 vs 2.0)
